@@ -1471,6 +1471,25 @@ def c17_escape(rep):
                 rep.violation({"property": rep.prop, "component": "escape battery (unsafe)", "what": "unsafe mode must add debug and keep io/os/package", "outcome": outcome, "cli": res})
 
 
+    # nothing written on the BLOCK may widen the sandbox: only BLOCKWATCH_LUA_MODE selects the mode. The battery once more in the
+    # default mode with attributes a script author might try (or a later version might introduce) asking for more
+    for label, attrs in [("asks-unsafe", ' check-lua-mode="unsafe" lua-mode="unsafe" mode="unsafe" sandbox="off" unsafe check-lua-unsafe="true" check-lua-sandbox="false" trusted="true" check-lua-libs="io,os,package,debug"'),
+                         ("asks-safe", ' check-lua-mode="safe" lua-mode="safe" mode="safe" safe check-lua-safe="true" check-lua-env="safe"')]:
+        res, written, victim = L.run_script(escape, None, extra_attrs=attrs)
+        msg = L.lua_message(res)
+        rep.evaluations += 1
+        rep.traces += 1
+        if not msg:
+            rep.violation({"property": rep.prop, "component": f"escape battery (default mode, block {label})", "what": "the escape battery did not run", "cli": res})
+            continue
+        outcome = dict(x.split("=", 1) for x in msg.split("|"))
+        bad = {k: v for k, v in outcome.items() if v != "blocked" and not k.endswith("load-binary")}
+        rep.count(f"escape:block-{label}:escaped={sorted(bad)}")
+        if bad or written or not victim:
+            found = True
+            rep.violation({"property": rep.prop, "component": f"escape battery (default mode, block {label})",
+                           "what": "attributes on the block widened the default-mode sandbox (only BLOCKWATCH_LUA_MODE selects the mode)",
+                           "block_attributes": attrs, "escaped": bad, "file_written": written, "victim_removed": not victim, "cli": res})
     return found
 
 
